@@ -73,7 +73,82 @@ EDITS = {
         email_grouping['full_emails'] = pcfg_parser.count_emails
 """, """    email_grouping['full_emails'] = pcfg_parser.count_emails
 """)],
+    "m06_config_list_of_wrong_counter": [(CONF, """    add_digits(config,create_filename_list(pcfg_parser.count_digits))
+""", """    add_digits(config,create_filename_list(pcfg_parser.count_alpha))
+""")],
+    "m17_years_list_names_other_file": [(CONF, """        "Years to replace with"
+        )
+    config.set(section, "file_type", "Flat")
+    config.set(section, "inject_type", "Copy")
+    config.set(section, "is_terminal", str(True))
+    config.set(section, "filenames", json.dumps(["1.txt"]))
+""", """        "Years to replace with"
+        )
+    config.set(section, "file_type", "Flat")
+    config.set(section, "inject_type", "Copy")
+    config.set(section, "is_terminal", str(True))
+    config.set(section, "filenames", json.dumps(["years.txt"]))
+""")],
+    "m18_filename_list_without_extension": [(CONF, """        filenames[i] = str(name) + ".txt"
+""", """        filenames[i] = str(name)
+""")],
+    "m19_digits_directory_wrong": [(CONF, """    config.set(section, "directory", "Digits")
+""", """    config.set(section, "directory", "Digit")
+""")],
+    "m20_config_list_skips_first_file": [(CONF, """    for i, name in enumerate(filenames):
+        filenames[i] = str(name) + ".txt"
+
+    return filenames
+""", """    for i, name in enumerate(filenames):
+        filenames[i] = str(name) + ".txt"
+
+    return filenames[1:]
+""")],
     # ---------------- harmless edits
+    "h6_write_via_local_line": [(SAVE, """            for item in prob_list:
+                datafile.write(str(item[0]) + '\\t' + str(item[1])+'\\n')
+""", """            for item in prob_list:
+                line = str(item[0]) + '\\t' + str(item[1])
+                line += '\\n'
+                datafile.write(line)
+""")],
+    "h5_config_comprehension_reordered": [(CONF, """    # Get the counter keys as a list
+    filenames = list(input_dictionary)
+
+    # Add the .txt at the end
+    for i, name in enumerate(filenames):
+        filenames[i] = str(name) + ".txt"
+
+    return filenames
+""", """    # The counter keys with .txt at the end
+    return [f"{key}.txt" for key in input_dictionary]
+"""), (CONF, """    add_digits(config,create_filename_list(pcfg_parser.count_digits))
+
+    add_other(config,create_filename_list(pcfg_parser.count_other))
+""", """    other_files = create_filename_list(pcfg_parser.count_other)
+    add_other(config, other_files)
+
+    add_digits(config, create_filename_list(pcfg_parser.count_digits))
+"""), (CONF, """    section = "BASE_Y"
+    config.add_section(section)
+
+    config.set(section, "name", "Y")
+    config.set(section, "function", "Copy")
+    config.set(section, "directory", "Years")
+    config.set(
+        section,
+        "comments",
+        "Years to replace with"
+        )
+""", """    sec = "BASE_Y"
+    config.add_section(sec)
+
+    config.set(sec, "name", "Y")
+    config.set(sec, "function", "Copy")
+    config.set(sec, "directory", "Years")
+    config.set(sec, "comments", "Years to replace with (reworded)")
+    section = sec
+""")],
     "h3_comments_docstrings_locals": [(BASE, """    # Saving this as a list and will join it at the end
     base_structure = []
 """, """    # collected here, joined at the end (comment changed)
